@@ -119,6 +119,8 @@ func C06(r *vf.Run) {
 			if k%10 == 9 { // programs spanning almost the whole bank
 				calls, base, dist = genFarHistory(g, listing)
 				capacity = 0x10100
+			} else if k%10 == 8 { // one label, references packed around it
+				calls, base, dist = genDenseRefs(g, listing)
 			} else {
 				calls, base, dist = genHistory(g, histOpts{maxCalls: 400, listing: listing, withRefs: true, withDup: true})
 				if g.Intn(10) == 0 {
@@ -190,7 +192,7 @@ func C06(r *vf.Run) {
 				switch {
 				case d == "back-129", d == "back-128", d == "back-127", d == "back-2", d == "back-3", d == "fwd0", d == "fwd1", d == "fwd126", d == "fwd127", d == "fwd128":
 					cells["dist:"+d+":"+outcome]++
-				case strings.HasPrefix(d, "far"), d == "hot-label":
+				case strings.HasPrefix(d, "far"), d == "hot-label", strings.HasPrefix(d, "dense-64-6"):
 					cells["dist:"+d+":"+outcome]++
 				}
 			}
